@@ -94,6 +94,7 @@ func main() {
 	var last *Ctx
 	for i, cf := range configs {
 		c, err := Load(*repo, *tier, cf.tags, cf.goarch)
+		baselineCtx = c
 		name := fmt.Sprintf("tags=%q,GOARCH=%q", cf.tags, cf.goarch)
 		cfgNames = append(cfgNames, name)
 		if err != nil {
